@@ -9,6 +9,8 @@ package eng
 // terms.
 
 import (
+	"strconv"
+	"regexp"
 	"fmt"
 	"go/constant"
 	"go/token"
@@ -963,6 +965,24 @@ func (f *frame) loopContract(li *loopInfo) *LoopContract {
 
 // bindLoopVars resolves the declared locals of a loop contract to SSA values at the header.
 func (f *frame) loopVarValue(li *loopInfo, name string, phiVals map[*ssa.Phi]*Val) (*Val, error) {
+	// <name>_L<k>: the phi <name> at the head of the ENCLOSING loop k (its current value)
+	if m := regexp.MustCompile(`^(.+)_L(\d+)$`).FindStringSubmatch(name); m != nil {
+		k, _ := strconv.Atoi(m[2])
+		for _, other := range f.loopAt {
+			if other.Ord != k {
+				continue
+			}
+			for _, ins := range other.Header.Instrs {
+				if phi, ok := ins.(*ssa.Phi); ok && phi.Comment == m[1] {
+					if v, ok := phiVals[phi]; ok {
+						return v, nil
+					}
+					return f.val(phi)
+				}
+			}
+		}
+		return nil, fmt.Errorf("loop %d of %s: no phi %q at the head of loop %d", li.Ord, f.fn.Name(), m[1], k)
+	}
 	for _, ins := range li.Header.Instrs {
 		if phi, ok := ins.(*ssa.Phi); ok && phi.Comment == name {
 			if v, ok := phiVals[phi]; ok {
